@@ -37,6 +37,7 @@ func runSessions(r *eng.Run, scripts []*script, stick, segMode int) ([]*sessResu
 	SharedFlateDialer = NewSharedDialer()
 	Broadcast = []byte(broadcastText)
 	SharedDebugUpgrader = NewSharedDebugUpgrader()
+	SharedHTTPUpgrader = NewSharedHTTPUpgrader()
 	// Real sync.Pools (the library's own, or ones a change introduces) are a
 	// source of nondeterminism the sim pool does not cover: collections are
 	// only allowed here, between executions, and two of them empty every
